@@ -234,9 +234,20 @@ def r2(ctx: Ctx) -> None:
         ctx.ob("C18.R2", f, "etag=None (create only if absent)", c, is_const(et, None), "If-None-Match: *")
         esc, caught = ctx.eff.propagate(f, {"CASConflictError"}, c.frames, record=False)
         ok = False
-        for h, _c in caught:
+        caught = list(caught)
+        i_ = 0
+        while i_ < len(caught):
+            h, _c = caught[i_]
+            i_ += 1
             hn = next(x for x in g.nodes if x.kind == "handler" and x.ast is h)
             ex = handler_exits(ctx, f, hn)
+            if ex["raise"] and all(r.raised == "reraise" for r in ex["raise"]) and not ex["fallthrough"] and not ex["return"] and not ex["loop"]:
+                # a clean-up handler that hands the same error on: follow it outward to the handler that translates it
+                for r_ in ex["raise"]:
+                    e2, c2 = ctx.eff.propagate(f, {"CASConflictError"}, r_.frames, record=False)
+                    esc = frozenset(esc) | frozenset(e2)
+                    caught += [x for x in c2 if x not in caught]
+                continue
             ok = bool(ex["raise"]) and all(r.raised == "TableExistsError" for r in ex["raise"]) and not ex["fallthrough"] and not ex["return"]
             exact = set(handler_classes(h)) == {"CASConflictError"}
             ctx.ob("C18.R2", f, "only a create-if-absent conflict means 'table exists'", hn, exact,
